@@ -437,6 +437,15 @@ func pool64(quick bool) []recipe64 {
 			add(w, vs...)
 		}),
 		mk("{full inner chunk at bucket 2}", func(w *W64) { rng(w, 2<<32, 2<<32+65536) }),
+		mk("{run chunks with several runs in buckets 0 and 1}", func(w *W64) {
+			// a batch boundary of the many-iterator then falls inside a run that is not the chunk's last
+			for _, bk := range []uint64{0, 1 << 32} {
+				rng(w, bk+0, bk+10)
+				rng(w, bk+20, bk+30)
+				rng(w, bk+40, bk+43)
+				rng(w, bk+65530, bk+65536+5)
+			}
+		}),
 		mk("{buckets 0..3 one value each}", func(w *W64) { add(w, 9, 1<<32+9, 2<<32+9, 3<<32+9) }),
 	}
 	cow := func(r recipe64) recipe64 {
@@ -568,6 +577,19 @@ func runC17(c *Ctx) {
 		bat.MaxDepth = 1
 	}
 	pool := pool64(q)
+	p0 := &explore.Product{Name: "pool states x query/iterator battery", Dims: []int{len(pool)}, Deadline: c.Budget(90, 1500),
+		Run: func(idx []int) (string, *ev.Fail) {
+			w := pool[idx[0]].Build()
+			n, f := battery64(w.B, w.M)
+			atomic.AddInt64(&evals, int64(n))
+			if f == nil {
+				if got := extract.Of64(w.B); !got.Equal(w.M) {
+					f = fail("queries", "modified-content", "the read-only battery changed the bitmap: %s", diff64(got, w.M))
+				}
+			}
+			return fmt.Sprint(n), f
+		},
+		Describe: func(idx []int) any { return pool[idx[0]].Name }}
 	p1 := &explore.Product{Name: "pairs x {And,Or,Xor,AndNot} x {static,in-place} + shortcuts + Equals", Dims: []int{len(pool), len(pool), 12}, Deadline: c.Budget(95, 1550),
 		Run: func(idx []int) (string, *ev.Fail) { return pairCall64(pool[idx[0]], pool[idx[1]], idx[2], false) },
 		Describe: func(idx []int) any {
@@ -737,6 +759,6 @@ func runC17(c *Ctx) {
 			return fmt.Sprint(idx[2]), nil
 		},
 		Describe: func(idx []int) any { return map[string]any{"span": idx[0] + 1, "low": lows[idx[1]], "variant": idx[2]} }}
-	runScenarios(c, fix, wide, bat, p1, p2, p3, p4, p5)
+	runScenarios(c, fix, wide, bat, p0, p1, p2, p3, p4, p5)
 	c.R.SetExtra("query_and_iterator_evaluations", atomic.LoadInt64(&evals))
 }
